@@ -6,6 +6,10 @@ and the real object's `__call__`, `gradient`, `cost`, `cost_gradient` are compar
 (mc/ref/c05_ref.py) evaluated on the *same float* data / predictions / Jacobian.  Normalisation over the
 data (and the logistic "s.d. equals sigma" clause) is checked independently of the reference formulas by
 quadrature of exp(value) over y for single-datum objects.
+Input forms ("reject or be right", evaluator forms): data / uncertainties handed over as list, tuple, (n,1), (1,n), Python number, 0-d,
+length-1, ... - a form the constructor ACCEPTS must give the results of the canonical flat arrays
+(forms/<Class>/<argument>-given-as-<form>/accepted-but-<call>-differs-from-flat-array-form, ../accepted-but-raises:<Type>);
+a form refused with ValueError / TypeError is fine and counted as rejected in the tags.
 """
 import itertools
 
@@ -343,6 +347,121 @@ def ev_many(case):
 EVALUATORS.update({"history": ev_history, "many": ev_many})
 
 
+# ----------------------------------------------------------------------------- input forms: reject or be right (added)
+# The documented form of y_data and of the uncertainties is a 1-D array.  Which other container forms the constructor accepts is
+# not part of the property - refusing one with ValueError / TypeError is fine - but a form that IS accepted must give exactly the
+# value / gradient / cost / cost_gradient of the canonical flat float arrays holding the same numbers (a single number given for
+# n data points can only mean "the same uncertainty for every point").
+def _strided(a):
+    a = np.asarray(a, dtype=float)
+    big = np.zeros((2 * a.shape[0],) + a.shape[1:], dtype=float)
+    big[::2] = a
+    return big[::2]
+
+
+def c05_forms(vals, shared):
+    """[(name, object)] for the n numbers ``vals``; shared=True: all numbers are equal and single-number forms are included"""
+    v = np.array(vals, dtype=float)
+    n = v.size
+    out = [
+        ("list", v.tolist()), ("tuple", tuple(v.tolist())), ("(n,1)-array", v.reshape(n, 1).copy()), ("(1,n)-array", v.reshape(1, n).copy()), ("list-of-1-lists", [[t] for t in v.tolist()]),
+        ("(1,n)-list", [v.tolist()]), ("strided-view", _strided(v)), ("(n,1)-strided-view", _strided(v.reshape(n, 1))), ("(n,1,1)-array", v.reshape(n, 1, 1).copy()),
+    ]
+    if shared:
+        x = float(v[0])
+        out += [("python-float", x), ("numpy-float64", np.float64(x)), ("0-d-array", np.array(x)), ("length-1-array", np.array([x])), ("length-1-list", [x]), ("(1,1)-array", np.array([[x]]))]
+        if x == int(x):
+            out.append(("python-int", int(x)))
+    return out
+
+
+def ev_forms(case):
+    import inference.likelihoods as L
+    import mpmath as mp
+    from mc.core import LibFailure
+    from mc.ref import c05_ref as R
+
+    mp.mp.dps = 50
+    kind, n, model, which = case["kind"], case["n"], case["model"], case["which"]
+    cls = getattr(L, R.CLASS_OF[kind])
+    kw = "gamma" if kind == "cauchy" else "sigma"
+    F, J, p = make_model(model, n)
+    theta = np.array(case["theta"], dtype=float)
+    shared = case["sigma"] in ("shared-2", "shared-0.37")
+    sig = [{"shared-2": 2.0, "shared-0.37": 0.37}[case["sigma"]]] * n if shared else sigma_vector(case["sigma"], n, case["rot"])
+    pred = [float(t) for t in F(theta)]
+    res = [[0.5, -3.0, 30.0, 0.0, -0.5][(i + case["rot"]) % 5] for i in range(n)]
+    y = [pred[i] + res[i] * sig[i] for i in range(n)]
+    fails, tags, slack, seen, nev = [], set(), {}, set(), 0
+    det = dict(kind=kind, n=n, y=y, sigma=sig, theta=theta.tolist(), model=model)
+
+    def add(key, what, **k2):
+        if key not in seen:
+            seen.add(key)
+            fails.append(fail(key, what, **det, **k2))
+
+    def results(obj):
+        out = {}
+        for call in ("__call__", "gradient", "cost", "cost_gradient"):
+            with lib(f"{cls.__name__}-{call}"):
+                out[call] = np.asarray(getattr(obj, call)(theta.copy()), dtype=float)
+        return out
+
+    with lib(f"{cls.__name__}-construct-canonical"):
+        canon = cls(y_data=np.array(y, dtype=float), **{kw: np.array(sig, dtype=float)}, forward_model=F, forward_model_jacobian=J)
+    want = results(canon)
+    nev += 4
+    _, sc = R.total(kind, y, pred, sig)
+    _, gsc = R.gradient(kind, y, pred, sig, [[float(t) for t in row] for row in J(theta)])
+    tolv = 2 * CTOL * EPS * float(sc)
+    tolg = np.array([2 * CTOL * EPS * float(t) for t in gsc])
+    forms = c05_forms(sig, shared) if which == "uncertainty" else c05_forms(y, n == 1)
+    for fname, obj_in in forms:
+        args = {"y_data": np.array(y, dtype=float), kw: np.array(sig, dtype=float)}
+        args["y_data" if which == "data" else kw] = obj_in
+        label = f"{which}={fname},{'n=1' if n == 1 else 'n>1'}"
+        try:
+            with lib(f"{cls.__name__}-construct-form", allow=(ValueError, TypeError)):
+                obj = cls(**args, forward_model=F, forward_model_jacobian=J)
+        except (ValueError, TypeError) as e:
+            tags.add(f"form {label}: rejected by the constructor ({type(e).__name__})")
+            continue
+        except LibFailure as e:
+            tags.add(f"form {label}: not accepted, the constructor raised {e.exc_type} (not a deliberate refusal)")
+            continue
+        nev += 1
+        try:
+            got = results(obj)
+        except LibFailure as e:
+            add(f"forms/{cls.__name__}/{which}-given-as-{fname}/accepted-but-raises:{e.exc_type}", f"{cls.__name__} accepted the {which} given as {fname} ({type(obj_in).__name__}{np.shape(obj_in)}), then {e}", form=fname, traceback=e.tb[-1500:])
+            continue
+        nev += 4
+        ok = True
+        for call in ("__call__", "gradient", "cost", "cost_gradient"):
+            g, w = got[call], want[call]
+            tol = tolv if call in ("__call__", "cost") else tolg
+            if g.shape != w.shape:
+                r = float("inf")
+            elif np.array_equal(g, w, equal_nan=True):
+                r = 0.0
+            else:
+                with np.errstate(all="ignore"):
+                    q = np.abs(g - w) / tol
+                r = float(np.max(np.where(np.isfinite(q), q, np.inf)))
+            slack[f"forms/{kind}/{call}"] = max(slack.get(f"forms/{kind}/{call}", 0.0), r if np.isfinite(r) else 0.0)
+            if not r <= 1:
+                ok = False
+                add(f"forms/{cls.__name__}/{which}-given-as-{fname}/accepted-but-{call}-differs-from-flat-array-form",
+                    f"{cls.__name__} accepted the {which} given as {fname} ({type(obj_in).__name__}{np.shape(obj_in)}) for {n} data points, but {call} = {g.tolist()} whereas the same numbers as flat "
+                    f"arrays give {w.tolist()} (shape {g.shape} vs {w.shape}, deviation {r:.3g} x tolerance)", form=fname, observed=g.tolist(), expected=w.tolist())
+        tags.add(f"form {label}: accepted{'' if ok else ' (wrong)'}")
+    tags.add(f"forms-config {kind},n={n},sigma={case['sigma']},model={model},{which}")
+    return {"fails": fails[:20], "n": nev, "tags": tags, "slack": slack, "sample": {"kind": kind, "n": n, "which": which, "forms": [f[0] for f in forms]}}
+
+
+EVALUATORS.update({"forms": ev_forms})
+
+
 def run(ck):
     from mc.ref import c05_ref as R
 
@@ -387,12 +506,26 @@ def run(ck):
             for pm in [0.0, [2.5, -40.0, 0.5, 17.0][seed % 4]] + ([] if quick else [-1.0, 1e3]):
                 ncases.append({"kind": kind, "sigma": s, "pred_in_sigma": pm})
     ck.run_cases("norm", ncases, chunk=1)
+    fcases = []
+    for ki, kind in enumerate(R.KINDS):
+        for ni, n in enumerate((1, 2, 3, 5)):
+            for wi, (which, sg) in enumerate((("uncertainty", "shared-2"), ("uncertainty", "shared-0.37"), ("uncertainty", "mixed"), ("uncertainty", "1e-3"), ("data", "mixed"), ("data", "1e3"))):
+                for mi, model in enumerate(models if not quick else [models[(ki + ni + wi + seed) % 3]]):
+                    th = THETA_MENU[model][(ki + ni + wi + mi + seed) % len(THETA_MENU[model])]
+                    fcases.append({"kind": kind, "n": n, "model": model, "theta": th, "sigma": sg, "rot": (seed + ni + wi) % 5, "which": which})
+    ck.run_cases("forms", fcases)
     ck.rule = (
+        "input forms (keys forms/..): for each class x n in {1,2,3,5} x {uncertainties, data} every listed container form of the SAME numbers - list, tuple, (n,1), (1,n), (n,1,1) arrays, list of "
+        "1-lists, (1,n) list, strided views, and where all numbers are equal (a shared uncertainty 2 or 0.37 for all n points; n = 1 for the data) a Python float / int, numpy float64, 0-d, length-1 and "
+        "(1,1) array, length-1 list - is handed to the constructor: a form it ACCEPTS must give __call__, gradient, cost, cost_gradient equal (bit for bit, else within the value / gradient tolerance) to "
+        "those of the flat float arrays; a form refused with ValueError / TypeError is counted as rejected in the tag (distinct = (argument, form, n = 1 / n > 1, accepted / rejected)).  "
         "for each class x sigma pattern x forward model (identity/linear/quadratic, exact Jacobian) x parameter point x input form: every residual "
         "vector in A^n (n<=3) and every cyclic window / constant vector (n=5) over the residual alphabet A (in units of sigma) is realised as data; "
         "value, gradient, cost, cost_gradient compared with a 50-digit reference on the same floats.  Distinct = (class, n, sigma pattern, model, form, "
         "largest |residual|, zero residual present, signs).  Plus quadrature of exp(value) over y (n=1) for normalisation and s.d."
     )
+    ck.assume("input forms: which container forms the constructors accept is not part of the claim (any may be refused with ValueError / TypeError); a single number given as the uncertainty of n > 1 data points, "
+              "if accepted, can only mean that uncertainty for every point")
     ck.assume("residuals are the listed multiples of sigma (up to 1e4 sigma), sigma in 1e-6..6e4, n <= 5, three forward models returning 1-D float arrays")
     ck.assume("the forward model's float output and Jacobian are taken as exact inputs of the likelihood (the property is about the likelihood given predictions)")
     ck.assume(f"quadrature clauses use the stated convention |integral-1| <= {QUAD_TOL:g} + 10 x quadrature error estimate (double-precision integrand)")
